@@ -7,7 +7,7 @@ import WowSrp.Gen.Constants
 namespace WowSrp
 
 /-- C08: both TBC halves key themselves with HMAC(seed, session key) -/
-theorem C08_source_layout : Gen.layoutTbcEncKey = [["key:s.as_slice()", "session_key"]] ∧
-    Gen.layoutTbcDecKey = [["key:s.as_slice()", "session_key"]] := by decide
+theorem C08_source_layout : Gen.layoutTbcEncKey = [["key:s.as_slice()", "session_key"], ["ctors:Hmac::new_from_slice", "methods:finalize,into_bytes,update", "control:", "rebound:key", "tail:Self{key,index:0,previous_value:0,}"]] ∧
+    Gen.layoutTbcDecKey = [["key:s.as_slice()", "session_key"], ["ctors:Hmac::new_from_slice", "methods:finalize,into_bytes,update", "control:", "rebound:key", "tail:Self{key,index:0,previous_value:0,}"]] := by decide +kernel
 
 end WowSrp
